@@ -6,7 +6,7 @@
 From Coq Require Import NArith List Lia ZArith Bool.
 Require Import SDS.Model.Mach SDS.Model.Bits SDS.Model.Raw SDS.Model.IntVec SDS.Model.BitVec SDS.Model.Sparse.
 Require Import SDS.Spec.BitSeq SDS.Spec.ValSeq SDS.Proofs.BitsProof SDS.Proofs.BVCommon SDS.Proofs.RankProof SDS.Proofs.SelectProof SDS.Proofs.BVFull.
-Require Import SDS.Proofs.SparseSeq SDS.Proofs.SparseProof SDS.Proofs.SparseBuild SDS.Proofs.SparseMain.
+Require Import SDS.Proofs.SparseSeq SDS.Proofs.SparseProof SDS.Proofs.SparseBuild SDS.Proofs.SparseLow SDS.Proofs.SparseMain.
 Import ListNotations.
 Open Scope N_scope.
 
@@ -39,3 +39,25 @@ Definition sparse_set_exact_closed sp md w' n P := sparse_set_exact sp md w' n P
 Definition sparse_multiset_exact_closed sp md w' n Vs := sparse_multiset_exact sp md w' n Vs (high_contract_holds sp md).
 Definition sparse_try_from_iter_accepts_closed sp md w' Vs :=
   sparse_try_from_iter_accepts sp md w' Vs (high_contract_holds sp md).
+
+(* the builders produce a well-formed vector [sv_ok] (the representation invariant every query theorem of
+   Proofs/SparseProof.v starts from), without any contract left *)
+Theorem build_set_ok_closed sp md w' n Vs : n < 2 ^ 64 -> 1 <= w' <= 63 ->
+  increasing Vs = true -> all_below n Vs = true ->
+  let w := eff_width w' n (lenN Vs) in
+  lenN Vs + buckets_of n w < 2 ^ 64 ->
+  exists sv H, sv_build_set sp md w' n Vs = Ok (inl sv) /\ sv_ok sp md sv n w Vs H.
+Proof.
+  destruct SparseLow.low_contract_holds as [R [Rnew [Rset Rget]]].
+  exact (build_set_ok sp md (high_contract_holds sp md) R Rnew Rset Rget w' n Vs).
+Qed.
+
+Theorem build_multiset_ok_closed sp md w' n Vs : n < 2 ^ 64 -> 1 <= w' <= 63 ->
+  nondecreasing Vs = true -> all_below n Vs = true ->
+  let w := eff_width w' n (lenN Vs) in
+  lenN Vs + buckets_of n w < 2 ^ 64 ->
+  exists sv H, sv_build_multiset sp md w' n Vs = Ok (inl sv) /\ sv_ok sp md sv n w Vs H.
+Proof.
+  destruct SparseLow.low_contract_holds as [R [Rnew [Rset Rget]]].
+  exact (build_multiset_ok sp md (high_contract_holds sp md) R Rnew Rset Rget w' n Vs).
+Qed.
